@@ -34,12 +34,38 @@ Inductive oop :=
 | OGoCloser (hid : N)
 | OGoClose (hid : N)
 | ORecv (hid : N) (id : N)
+| OMakes (f : fdesc) (fre : bool) (cl : N) (cap : N) (from : N) (k : N)
+                                     (* k consecutive OMake with the same arguments; they returned from, from+1, ..., from+k-1
+                                        (how the harness writes the fill of a large table) *)
+| OGoRange (from : N) (k : N)        (* OGoCloser hid; OGoClose hid for hid = from, ..., from+k-1 *)
 | OFault (wmode : N).                (* the harness-owned stream changes the way it answers Write (no label of the endpoint):
                                         0 healthy, 1 (0, closed pipe), 2 (7, error), 3 (0, EOF), 4 (0, nil), 5 five bytes per call,
                                         6 (len, EOF), 7 blocks until the stream is closed, then (0, closed pipe) *)
 
 (* closer calls, class of the closer's argument (0 never called, 1 nil, 2 error), queue closed, ids received *)
 Definition hobs := (N * N * bool * list N)%type.
+(* the two most frequent observations, by name (case files are read at ~20k characters/s) *)
+Definition hc1 : hobs := (1, 1, true, []).   (* closer called once with nil, queue closed, nothing received *)
+Definition hc0 : hobs := (0, 0, true, []).   (* no closer, queue closed, nothing received *)
+
+(* run-length forms written out *)
+Fixpoint makes_seq (f : fdesc) (fre : bool) (cl cap from : N) (k : nat) : list oop :=
+  match k with
+  | O => []
+  | S k' => OMake f fre cl cap from :: makes_seq f fre cl cap (from + 1) k'
+  end.
+Fixpoint go_seq (from : N) (k : nat) : list oop :=
+  match k with
+  | O => []
+  | S k' => OGoCloser from :: OGoClose from :: go_seq (from + 1) k'
+  end.
+Definition expand1 (o : oop) : list oop :=
+  match o with
+  | OMakes f fre cl cap from k => makes_seq f fre cl cap from (N.to_nat k)
+  | OGoRange from k => go_seq from (N.to_nat k)
+  | _ => [o]
+  end.
+Definition expand (ops : list oop) : list oop := flat_map expand1 ops.
 
 Record ocase := {
   c_ops : list oop;
@@ -61,6 +87,7 @@ Definition label_of (o : oop) : label :=
   | OGoClose hid => LGoClose (N.to_nat hid)
   | ORecv hid _ => LRecv (N.to_nat hid)
   | OFault _ => LRemove (-1)          (* not used: replay skips OFault *)
+  | OMakes _ _ _ _ _ _ | OGoRange _ _ => LRemove (-1)   (* not used: case_ok expands them; ret_ok rejects them *)
   end.
 
 Definition dcode (d : dres) : N := match d with DNil => 0 | DNoMatch => 1 | DBlocked => 2 | DNoHandler => 3 end.
@@ -141,7 +168,7 @@ Definition sent_ok (ms : list msg) (fs : list string) : bool :=
   eqb_bytes (List.concat (map enc_msg ms)) (List.concat (map unhex fs)).
 
 Definition case_ok (c : ocase) : bool :=
-  let '(e, s, wire) := replay init 0 [] (c_ops c) in
+  let '(e, s, wire) := replay init 0 [] (expand (c_ops c)) in
   (e =? c_end c) &&
   (if e =? 0 then all2 hobs_ok (st_hs s) (c_hs c) && sent_ok (st_sent s) (c_sent c) &&
                   eqb_bytes wire (unhex (c_wire c)) &&
